@@ -146,7 +146,6 @@ def plan(tier):
     if tier == "thorough":
         add("hook-state-arcs", "state,arcs", S_=2)
         add("hook-arcs-s4", "arcs", S_=4, kinds="r")
-        add("hook-linear-state-linear", "linear,state,linear")
         add("stream-other", "other,state", entry="stream")
     return out
 
